@@ -189,11 +189,11 @@ func c33handler(c *Ctx, s *c33state, line string, w []string, u func(int) uint64
 	case "hh":
 		_, maxH := chainmgr.VerifMaxNums()
 		want, werr := chainmgr.VerifLocateHeaders(s.chain, c33hashes(s, locL), s.hashOf(stopL), skip, maxH)
-		if got, exp := res, c33resp(s, want, werr); got != exp {
-			c.Fail("handler answer differs from locateHeaders: "+line, "sent "+got+", located "+exp)
-		}
 		if len(hs) > 0 {
 			c33oracle(c, s, line, "hh", hs, nil, locL, stopL, skip, maxH)
+		}
+		if got, exp := res, c33resp(s, want, werr); got != exp {
+			c.Fail("handler answer differs from locateHeaders: "+line, "sent "+got+", located "+exp)
 		}
 	case "hb":
 		maxB, _ := chainmgr.VerifMaxNums()
@@ -204,11 +204,11 @@ func c33handler(c *Ctx, s *c33state, line string, w []string, u func(int) uint64
 		}
 		exp := c33resp(s, want, werr)
 		// size budget: a non-empty prefix (the blocks of this harness are small: everything fits)
-		if res != exp {
-			c.Fail("handler answer differs from locateBlocks: "+line, "sent "+res+", located "+exp)
-		}
 		if len(hs) > 0 {
 			c33oracle(c, s, line, "hb", hs, nil, locL, stopL, 0, maxB)
+		}
+		if res != exp {
+			c.Fail("handler answer differs from locateBlocks: "+line, "sent "+res+", located "+exp)
 		}
 	}
 }
@@ -270,6 +270,36 @@ func c33genHandlers(c *Ctx, mainL, sideL []uint64, pick func() uint64, unknown f
 	}
 	for i := 0; i < 2; i++ {
 		both(pick(), pick(), pick(), pick())
+	}
+	// long locators (65…300 entries): unknown and side-branch hashes first, the first
+	// main-chain entry only at index 64, 65, 100 or last — the whole locator has to be scanned
+	if r.Intn(3) == 0 {
+		total := []int{65, 66, 100, 101, 150, 300, 65 + r.Intn(236)}[r.Intn(7)]
+		first := []int{64, 65, 100, total - 1, 64 + r.Intn(total-64)}[r.Intn(5)]
+		if first >= total {
+			first = total - 1
+		}
+		var loc []uint64
+		for i := 0; i < first; i++ {
+			if len(sideL) > 0 && r.Intn(2) == 0 {
+				loc = append(loc, sideL[r.Intn(len(sideL))])
+			} else {
+				loc = append(loc, unknown())
+			}
+		}
+		// then main-chain entries in descending height (labels of main blocks ascend with height)
+		at := r.Intn(n)
+		if n > 1 && at == 0 {
+			at = 1 + r.Intn(n-1)
+		}
+		for len(loc) < total {
+			loc = append(loc, mainL[at])
+			if at > 0 {
+				at--
+			}
+		}
+		out = append(out, fmt.Sprintf("hh %d %d%s", []uint64{0, 0, 1, 3}[r.Intn(4)], top, locs(loc...)))
+		out = append(out, fmt.Sprintf("hb %d%s", top, locs(loc...)))
 	}
 	k := "gb"
 	if r.Intn(2) == 0 {
